@@ -43,7 +43,7 @@ class Check(PropertyCheck):
             else:
                 k1 = rng.randint(1, 3)
                 k2 = k1 + rng.randint(0, 2)
-            cnt = rng.randint(1, 4)
+            cnt = rng.choice([0, 1, 2, 2, 3, 3, 4, 4])      # (a limit of 0: an empty pass, every time)
             draws = [rng.randint(0, 50) for _ in range(rng.randint(0, 120))]
             if i % 5 == 3:
                 # the public helper create_random_operation() called directly a few times before the pass
